@@ -180,6 +180,16 @@ class SqlalchemyRender:
             arg1 = self.to_expression(t.args[1])
 
             op = t.op.lower()
+            if op in ('is', 'is not') and isinstance(t.args[1], ast.Constant) and not t.args[1].alias:
+                # real NULL / TRUE / FALSE (not bound literals): sqlalchemy can negate `x IS NULL` only then,
+                #  NOT (x IS NULL) lost its NOT
+                value = t.args[1].value
+                if value is None:
+                    arg1 = sa.null()
+                elif value is True:
+                    arg1 = sa.true()
+                elif value is False:
+                    arg1 = sa.false()
             if op in ('in', 'not in'):
                 if isinstance(arg1, sa.sql.selectable.ColumnClause):
                     raise NotImplementedError(f'Required list argument for: {op}')
